@@ -244,7 +244,7 @@ func c05Codes(r *eng.Run) []*c07Sys {
 func init() {
 	checks["C05"] = eng.Check{
 		Hist: true,
-		Rule: "every block of <=3 (thorough 4) instructions over an 18-word alphabet chosen around the dependency rules (three writers of x1, reader, read-modify-write, sd/ld on one base with and without a shared register, a partially overlapping sb, fence, ecall, csrrw, amoadd.w, the pseudo-jumps jal x5,+4 and beq x0,x0,+4, auipc), optionally ended by a real terminating beq/jal, followed by nops: explicit-state search over ALL orders reachable through accepted Block.Move calls (state = order; successor = fresh real code + replay + move); every reachable order is run in the real emulator from 3 initial states (aliasing and non-aliasing addresses, all registers preloaded) until pc leaves the block or a horizon, and compared (registers, writable-memory bytes, final pc, termination) with the run of the original order. Block moves on the 4 multi-block codes of C07: every pair of Code.Move calls leaves each instruction's address, text and single-step behaviour unchanged. Non-trivial = block with more than one reachable order.",
+		Rule: "every block of <=3 (thorough 4) instructions over an 18-word alphabet chosen around the dependency rules (three writers of x1, reader, read-modify-write, sd/ld on one base with and without a shared register, a partially overlapping sb, fence, ecall, csrrw, amoadd.w, the pseudo-jumps jal x5,+4 and beq x0,x0,+4, auipc), optionally ended by a real terminating beq/jal, followed by nops: explicit-state search over ALL orders reachable through accepted Block.Move calls (state = order; successor = fresh real code + replay + move); every reachable order is run in the real emulator from 3 initial states (aliasing and non-aliasing addresses, all registers preloaded) until pc leaves the block or a horizon, and compared (registers, writable-memory bytes, final pc, termination) with the run of the original order. A second pass walks ONE long-lived instance through a depth-2 (thorough 3) tour of accepted, rejected and undo moves and runs the emulator comparison in every node. Block moves on the 4 multi-block codes of C07: every pair of Code.Move calls leaves each instruction's address, text and single-step behaviour unchanged. Non-trivial = block with more than one reachable order.",
 		Assumptions: []string{"differential oracle: original order vs reordered order on the same emulator", "all registers are preloaded so the known narrow-first-read finding of C03 cannot influence the comparison"},
 		Run: func(r *eng.Run) {
 			codes := c05Codes(r)
@@ -252,6 +252,39 @@ func init() {
 			r.Par(len(codes), func(i int) {
 				f := c05Explore(r, codes[i], 0)
 				r.Eval(1)
+				if f != nil {
+					r.Report(f)
+					r.Outcome(f.Sig)
+					return
+				}
+				// second pass on ONE long-lived instance (hidden state accumulated over the
+				// history of accepted, rejected and undo moves is carried along): every node
+				// of a depth-2 (thorough 3) tour is run in the emulator and compared.
+				s := codes[i]
+				img := c05Image(s.segs)
+				var base []*emu.Outcome
+				for k := range c05Inits {
+					o, err := c05RunOrder(s, nil, 0, k)
+					if err != nil {
+						return
+					}
+					base = append(base, o)
+				}
+				depth := 2
+				if !r.Quick() {
+					depth = 3
+				}
+				f = c07Tour(r, s, depth, func(c *deps.Code, ops []c07Op) *eng.Fail {
+					b := c.Index(0)
+					for k := range c05Inits {
+						in := c05Inits[k]
+						o := emu.RunBlock(c, s.segs, uint64(b.Begin()), uint64(b.Begin()), uint64(b.End()), &in, 3*b.Num()+3)
+						if d := emu.Differ(base[k], o, &c05Inits[k], img); d != "" {
+							return &eng.Fail{Sig: "reordered block differs (long-lived instance)", What: fmt.Sprintf("after operations %v from initial state %d: %s", ops, k, d)}
+						}
+					}
+					return nil
+				})
 				if f != nil {
 					r.Report(f)
 					r.Outcome(f.Sig)
@@ -268,6 +301,45 @@ func init() {
 			r.Sample(c05Case{Segs: codes[len(codes)/2].segs, Entry: 0x1000, Text: c05Text(codes[len(codes)/2]), Path: []c07Op{{Kind: "ins", From: 0, To: 1}}})
 		},
 		Replay: func(r *eng.Run, raw json.RawMessage) *eng.Fail {
+			var probe struct {
+				Tour bool `json:"tour"`
+			}
+			json.Unmarshal(raw, &probe)
+			if probe.Tour {
+				var tc c07Case
+				if err := json.Unmarshal(raw, &tc); err != nil {
+					panic(err)
+				}
+				s, err := newC07Sys(tc.Segs, tc.Entry)
+				if err != nil {
+					return nil
+				}
+				if f := c07ReplayTour(s, tc); f != nil {
+					return f
+				}
+				// re-run the emulation comparison at the end of the operation list
+				code, m, err := s.build(nil)
+				if err != nil {
+					return nil
+				}
+				for _, op := range tc.Path {
+					c07Apply(code, m, op, s.lens)
+				}
+				img := c05Image(s.segs)
+				b := code.Index(0)
+				for k := range c05Inits {
+					base, err := c05RunOrder(s, nil, 0, k)
+					if err != nil {
+						return nil
+					}
+					in := c05Inits[k]
+					o := emu.RunBlock(code, s.segs, uint64(b.Begin()), uint64(b.Begin()), uint64(b.End()), &in, 3*b.Num()+3)
+					if d := emu.Differ(base, o, &c05Inits[k], img); d != "" {
+						return &eng.Fail{Sig: "reordered block differs (long-lived instance)", What: d, Case: tc}
+					}
+				}
+				return nil
+			}
 			var c c05Case
 			if err := json.Unmarshal(raw, &c); err != nil {
 				panic(err)
